@@ -339,12 +339,14 @@ theorem remove_cnt (x : Val) {w w' : World} {id : Ident} {drops : List Val} (hi 
 
 theorem clear_cnt (x : Val) {w w' : World} {order : List Mask} {drops : List Val}
     (e : w.clear order = .ok (w', drops)) : w'.cnt x + drops.count x = w.cnt x := by
-  unfold World.clear at e
-  simp only [] at e
-  split at e
-  · simp at e
-  · simp only [Out.ok.injEq, Prod.mk.injEq] at e
-    obtain ⟨rfl, rfl⟩ := e
+  obtain ⟨w0, e0, rfl⟩ := clear_eq e
+  show w0.cnt x + drops.count x = w.cnt x
+  unfold World.clearRaw at e0
+  simp only [] at e0
+  split at e0
+  · simp at e0
+  · simp only [Out.ok.injEq, Prod.mk.injEq] at e0
+    obtain ⟨rfl, rfl⟩ := e0
     have hp : (w.visitOrder order).Perm w.archs := List.mergeSort_perm _ _
     have h1 : ((w.visitOrder order).flatMap Arch.values).count x = (w.archs.flatMap Arch.values).count x :=
       (hp.flatMap_right Arch.values).count_eq x
